@@ -310,8 +310,13 @@ def _run_arcs(res, item):
     lat = _arc_lattice(tier, seed)
     inc = lat["inc"][ii]
     excluded = 0
-    for nu in lat["nu"]:
-        for frac in lat["fracs"]:
+    pairs = [(nu, frac) for nu in lat["nu"] for frac in lat["fracs"]]
+    if e >= 0.3:
+        # dense sub-lattice of long-way arcs that start after apogee and run through perigee with a time of flight near
+        # half a period: the solvers' minimum-energy-time / quadrant branches switch inside this region
+        pairs += [(math.radians(n) + 0.013, f) for n in range(150, 345, 15) for f in (0.40, 0.42, 0.44, 0.46, 0.48, 0.50, 0.52, 0.58)]
+    for nu, frac in pairs:
+        if True:
             arc = ref.arc(a, e, inc, lat["raan"], lat["argp"], nu, frac)
             dn = arc["dnu"] / DEG
             if min(dn, abs(dn - 180.0), 360.0 - dn) < EXCLUDE_DEG:
